@@ -265,7 +265,8 @@ func checkR(c RCase, r *vf.R) error {
 	for _, sg := range segs {
 		if sg.Cmd == oracle.ArcTo {
 			if ch := sg.P0.Dist(sg.End()); ch > 0 && ch < 2*sg.Args[0] {
-				cond := 6 * rel * mabs * sg.Args[0] / ch
+				// (for an ellipse the centre is the more sensitive the more eccentric it is)
+				cond := 2 * 6 * rel * mabs * sg.Args[0] / ch * sg.Args[0] / math.Max(sg.Args[1], 1e-300)
 				if cond > 0.05*mabs {
 					// the printed end points leave the arc's centre undetermined to more than a twentieth of the drawing
 					r.Class("arc-ill-conditioned-at-printed-resolution(skipped)")
